@@ -211,6 +211,21 @@ Holds(e, name) ==
     [] name = "C01_ClosedTvd" -> \A k \in DOMAIN o.tvdnamed : C01_ClosedVector(g, V, FieldOf(g, o.tvdnamed[k]))
     [] name = "C01_ClosedTvdMid" ->
          \A k \in DOMAIN o.tvdnamed : C01_ClosedVector(g, MidVolume(g), FieldOf(g, o.tvdnamed[k]))
+    [] name = "C11_Linear"     -> FaceFieldOf(g, o.linmean) = LinearMean(g, FieldOf(g, cf.phi))
+    [] name = "C11_Arithmetic" -> FaceFieldOf(g, o.arithmean) = ArithmeticMean(g, FieldOf(g, cf.phi))
+    [] name = "C11_Harmonic"   -> FaceFieldOf(g, o.harmmean) = HarmonicMean(g, FieldOf(g, cf.phi))
+    [] name = "C11_Upwind"     -> FaceFieldOf(g, o.upmean) =
+                                    UpwindMean(g, FieldOf(g, cf.phi), FaceFieldOf(g, cf.u))
+    [] name = "C11_Geometric"  -> C11_GeoRelation(g, FieldOf(g, cf.phi), FaceFieldOf(g, o.geomean))
+    [] name = "C11_Between" ->
+         \A k \in {"linmean", "arithmean", "harmmean", "geomean", "upmean"} :
+            C11_Between(g, FieldOf(g, cf.phi), FaceFieldOf(g, o[k]))
+    [] name = "C11_Ordering" ->
+         C11_Ordering(g, FaceFieldOf(g, o.harmmean), FaceFieldOf(g, o.geomean), FaceFieldOf(g, o.arithmean))
+    [] name = "C11_Constants" ->
+         \A k \in DOMAIN o.constmeans : C11_Const(g, cf.const, FaceFieldOf(g, o.constmeans[k]))
+    [] name = "C11_LinearExact" ->
+         C11_LinearExact(g, cf.lin_alpha, cf.lin_beta, FaceFieldOf(g, o.linmean_linear))
     [] name = "C04_DiffInterior" -> InteriorRowsOnly(g, MatOf(o.Mdiff))
     [] name = "C04_ConvInterior" -> InteriorRowsOnly(g, MatOf(o.Mconv))
     [] name = "C04_UpInterior"   -> InteriorRowsOnly(g, MatOf(o.Mup))
